@@ -161,6 +161,9 @@ def _run_pair(ctx, spec, rng):
             continue
         lib[name] = float(np.real(v))
         mech = f"{name}:differs-from-definition"
+        if name == "fidelity" and np.isnan(lib[name]) and m[name] <= 1e-6:
+            # scipy.linalg.sqrtm of the (numerically zero, slightly indefinite) product sqrt(rho) sigma sqrt(rho) of an orthogonal pair returns nan
+            mech = "fidelity:nan-on-orthogonal-pair[sqrtm-of-numerically-zero-product]"
         if name == "trace_distance" and abs(lib[name] - m[name]) > T2:
             alt = 0.5 * ref.trace_norm(np.abs(rho - sig))
             if abs(lib[name] - alt) <= T2:
@@ -171,6 +174,8 @@ def _run_pair(ctx, spec, rng):
                 mech = "hilbert_schmidt:squared-spectral-norm-instead-of-Tr(delta^2)"
         ctx.check("O1:" + name, None, dev=abs(lib[name] - m[name]), tol=T2, sig=sig_, nt=nt, mech=mech, detail=dict(det, library=lib[name], definition=m[name]))
     ctx.sample("O1:fidelity", dict(det, library=lib, definition={k: v for k, v in m.items() if k != "ev"}))
+    if "fidelity" in lib and np.isnan(lib["fidelity"]):
+        return  # reported once above; the relation monitors would only repeat it under other names
     if spec[1] % 5 == 0:  # the same array object as both arguments: the values of identical states
         same = {"fidelity": 1.0, "trace_distance": 0.0, "hilbert_schmidt": 0.0, "helstrom_holevo": 0.5, "sub_fidelity": models(rho, rho)["sub_fidelity"]}
         for name, fn in (("fidelity", fidelity), ("trace_distance", trace_distance), ("hilbert_schmidt", hilbert_schmidt), ("helstrom_holevo", helstrom_holevo),
